@@ -77,19 +77,39 @@ def build(ctx):
         return dict(ok=False, why="harness-files", log=str(ex))
     test_bin = ctx.work / "restdiff.test"
     base = {str(REPO / k): str(VERIF / "harness" / "overlay" / v) for k, v in seqtie.OVERLAYS.items()}
+    # the gRPC side goes through the REAL net/grpc.Run (server options, interceptors): its listener is made injectable in a copy
+    grpc_ov, grpc_why = {}, None
+    try:
+        from lib import instrument
+        ins = instrument.instrument(VERIF / "harness" / "restdiff" / "grpc_anchors.json", ctx.work / "grpcinstr", REPO)
+        if ins["missing"]:
+            grpc_why = "net/grpc.Run has no `lis, err := net.Listen(\"tcp\", conf.ListenAddress)` to make injectable: %s" % json.dumps(ins["missing"])[:300]
+        else:
+            grpc_ov = ins["overlay"]
+    except Exception as ex:  # noqa
+        grpc_why = "instrumenter failed: %r" % (ex,)
+    sess_ov = {str(REPO / "net" / "rest" / "verif_hooks.go"): str(acc)}
     logs = []
-    for tags, extra in (("verif restsess", {str(REPO / "net" / "rest" / "verif_hooks.go"): str(acc)}), ("verif", {})):
+    for use_sess, use_grpc in ((True, True), (False, True), (True, False), (False, False)):
+        if use_grpc and not grpc_ov:
+            continue
+        tags = "verif" + (" restsess" if use_sess else "") + (" restgrpc" if use_grpc else "")
         ov = ctx.work / "overlay.json"
         rep = dict(base)
-        rep.update(extra)
+        if use_sess:
+            rep.update(sess_ov)
+        if use_grpc:
+            rep.update(grpc_ov)
         ov.write_text(json.dumps({"Replace": rep}))
         cmd = [vcheck.GO, "test", "-c", "-vet=off", "-tags", tags, "-overlay", str(ov), "-o", str(test_bin), "./restdiff"]
         rc, out = sh(cmd, cwd=hdir, env=vcheck.go_env(), timeout=900)
-        logs.append(out[-3000:])
+        logs.append("[%s]\n%s" % (tags, out[-2500:]))
         if rc == 0 and test_bin.exists():
-            return dict(ok=True, test_bin=test_bin, driver=OCAML / "restdriver", log=out[-500:], cookies_visible=bool(extra),
-                        degraded=None if extra else logs[0])
-    return dict(ok=False, why="repo-build", log="\n---- without the session-table accessor:\n".join(logs))
+            if not use_grpc and grpc_why is None:
+                grpc_why = "the harness does not build against the real grpc.Run of this tree:\n" + logs[0][-1500:]
+            return dict(ok=True, test_bin=test_bin, driver=OCAML / "restdriver", log=out[-500:], cookies_visible=use_sess,
+                        grpc_real=use_grpc, grpc_why=grpc_why, degraded=None if use_sess else logs[0])
+    return dict(ok=False, why="repo-build", log="\n---- next attempt:\n".join(logs))
 
 
 # ------------------------------------------------------------------------------------------------------------- running
@@ -575,7 +595,7 @@ PROFILE_C15 = {
 
 
 PROFILE_MIXED = dict(PROFILE_C15, mode="mixed", weights={"create": 8, "delete": 5, "try": 26, "unl": 24, "ren": 18, "noop": 2, "adv": 17},
-                     sizes=[2, 3, 3], lts=[None, 2, 3, 5, 5, 30], renew_lts=[1, 2, 3, 3], names=["61", "62"], bad_key_pct=5, tmos=[2000000007, 5 * S, 600 * S])
+                     sizes=[2, 3, 3], lts=[None, 2, 3, 5, 5, 30, 0, -1], renew_lts=[1, 2, 3, 3, 0, -1], names=["61", "62"], bad_key_pct=5, tmos=[2000000007, 5 * S, 600 * S])
 
 
 def shrink_history(ctx, b, h, fails_fn, budget=30):
@@ -674,8 +694,12 @@ def run(ctx):
         cov["rule"] = "nothing could be executed"
         return
     tie["session_table_accessor"] = b["cookies_visible"]
+    tie["grpc_side"] = ("the REAL grpc.Server started by net/grpc.Run (its interceptor chain and stats handler) over an in-memory listener inside the bubble; every client is a real grpc.ClientConn"
+                        if b["grpc_real"] else "FALLBACK: Service methods called directly with TagConn/HandleConn contexts — " + str(b["grpc_why"])[:400])
     if not b["cookies_visible"]:
         ctx.note("the session-table accessor does not compile against this tree; probes carry no cookie list")
+    if not b["grpc_real"]:
+        ctx.note("gRPC side falls back to direct Service calls: " + str(b["grpc_why"])[:300])
 
     def runner(hs):
         bb = run_c15_batch(ctx, b, histories=hs, tag="one")
@@ -724,6 +748,27 @@ def run(ctx):
                 n_mis += 1
                 if first_mis is None:
                     first_mis = (hid, mm, r, bb)
+    # the "malformed stream": timeouts a validation layer must refuse on both transports alike
+    mal = {"renew_lt_zero_or_omitted": 0, "renew_lt_negative": 0, "trylock_lt_zero": 0, "trylock_lt_negative": 0, "trylock_size_zero_or_negative": 0}
+    for bb in batches:
+        for case in bb["cases"].values():
+            for blk in case["blocks"]:
+                e = blk["e"]
+                if e[0] == "req" and len(e) > 2:
+                    try:
+                        if e[2] == "ren":
+                            v = int(e[5])
+                            mal["renew_lt_zero_or_omitted" if v == 0 else "renew_lt_negative"] += 1 if v <= 0 else 0
+                        elif e[2] == "try":
+                            if e[5] != "~" and int(e[5]) == 0:
+                                mal["trylock_lt_zero"] += 1
+                            if e[5] != "~" and int(e[5]) < 0:
+                                mal["trylock_lt_negative"] += 1
+                            if e[4] != "~" and int(e[4]) <= 0:
+                                mal["trylock_size_zero_or_negative"] += 1
+                    except (ValueError, IndexError):
+                        pass
+    tie["malformed_parameters_sent_over_both_transports"] = mal
     report_crashes(ctx, crashes, "the gateway crashed or hung")
     if n_mis and not n_fail and not crashes:
         hid, mm, r, bb = first_mis
